@@ -162,9 +162,14 @@ def lean_run(text, timeout=600):
     p = os.path.join(BUILD, "scratch_%d_%d.lean" % (os.getpid(), random.randrange(1 << 30)))
     with open(p, "w") as f:
         f.write(text)
+    import fcntl
+    lockf = open(os.path.join(BUILD, "lake.lock"), "w")
+    fcntl.flock(lockf, fcntl.LOCK_EX)
     try:
         return sh(["lake", "env", "lean", p], cwd=LEAN, timeout=timeout)
     finally:
+        fcntl.flock(lockf, fcntl.LOCK_UN)
+        lockf.close()
         try:
             os.unlink(p)
         except OSError:
